@@ -577,6 +577,9 @@ func exC04Calls(g *exGraph) []*exCall {
 			continue
 		}
 		for _, entry := range exEntries {
+			if !exEntryApplies(ec.Op, entry) {
+				continue
+			}
 			if ec.Op == "expand_schema" && entry == "base_path" {
 				for _, skip := range []bool{false, true} {
 					for _, cont := range []bool{false, true} {
@@ -1141,6 +1144,9 @@ func exC10Variants(r *rng, g *exGraph) []*exInput {
 	var out []*exInput
 	for _, ec := range exElementCases(g) {
 		for _, entry := range exEntries {
+			if !exEntryApplies(ec.Op, entry) {
+				continue
+			}
 			in := exInputOf(g)
 			in.Op, in.Element, in.Entry, in.Pointer = ec.Op, ec.Element, entry, ec.Pointer
 			if ec.Op == "expand_schema" && entry == "base_path" {
@@ -1716,6 +1722,9 @@ func exHistoryPool(r *rng, graphs []*exGraph) []*exCall {
 			ec := els[r.intn(len(els))]
 			c := g.call(ec.Op, exOpts{})
 			c.Element, c.Entry = ec.Element, r.pick(exEntries)
+			if !exEntryApplies(ec.Op, c.Entry) {
+				c.Entry = "base_path"
+			}
 			pool = append(pool, c)
 		}
 	}
